@@ -1,4 +1,5 @@
 import Heph.Proofs.TransKotlinPrinted
+import Heph.Props.C12Groovy
 import Heph.Spec.Brackets
 /-!
 # C12 — translations are faithful to the program's declarations and annotations (Kotlin modelled)
